@@ -465,6 +465,8 @@ impl Generator {
     pub(super) fn emit_opcode(&mut self, opcode: OpcodeKind) {
         self.output.push(opcode.as_u8());
         self.process_stack_ops(opcode, None);
+        #[cfg(feature = "verif")]
+        crate::verif::on_emit_opcode(self, opcode);
     }
 
     /// emit the PROTO opcode if appropriate for the protocol version.
